@@ -394,6 +394,10 @@ func cmdCheck(args []string) {
 				if c.Assumed {
 					continue
 				}
+				if callee.Pkg != nil && verifiedElsewhere(cfg, callee.Pkg.Pkg.Path()) {
+					trusted["contract of "+shortName(cn)+" (repo function of types/math: verified against the apd contracts by the check of property C19, where math.Dec is concrete)"] = true
+					continue
+				}
 				if _, ok := target[cn]; !ok {
 					target[cn] = "cone"
 					work = append(work, cn)
@@ -556,6 +560,12 @@ func cmdCheck(args []string) {
 		}
 		os.Exit(1)
 	}
+}
+
+// verifiedElsewhere: packages whose functions are verified under a different view of an abstract
+// type (types/math: math.Dec is a record there and an abstract value for its clients).
+func verifiedElsewhere(cfg *PropCfg, pkg string) bool {
+	return pkg == "github.com/regen-network/regen-ledger/types/v2/math" && cfg.ID != "C19"
 }
 
 func contractInModule(c *Contract, m ModuleCfg) bool {
